@@ -70,7 +70,9 @@ def check(ctx):
                 ctx.states += r[stage]['summary']['states']
                 ctx.transitions += r[stage]['summary']['transitions']
                 ctx.mc_runs.append(dict(name='NpcProgram[%s cfg%d]' % (stage, r['idx']), **r[stage]['summary']))
-        behs += r['behaviours']
+        for b in r['behaviours']:
+            b['variant'] = (len(behs) + ctx.seed) % 3
+            behs.append(b)
     d = tlc.scratch('c04')
     try:
         inp = os.path.join(d, 'behaviours.json')
